@@ -9,6 +9,7 @@ import AnySyncModel.Sync.SnapStep
                                    → `ok <set dst> <heads dst> @<root dst>[ | <msgs>]`
   sync <r> <q>                     → `ok <set r> <heads r> @<root r> | <msg>`
   drop <mid>                       → `ok`
+  reroot <r> <root>                → `ok <set r> <heads r> @<root r>` (rebuild from storage: only the root may move)
   dup <mid> <newmid>               → `ok`
   state                            → `ok <set 0> <heads 0> @<root 0> ; <set 1> <heads 1> @<root 1> ; …`
 
@@ -83,6 +84,13 @@ def step (st : Option SState) (line : String) : Option SState × String :=
       if nm ≠ ss.base.nextMid then (st, "bad-step") else
       match sstep ss (.dup mid) with
       | some ss' => (some ss', "ok")
+      | none => (st, "bad-step")
+    | _, _ => (st, "bad-op")
+  | some ss, ["reroot", r, root] =>
+    match r.toNat?, root.toNat? with
+    | some r, some root =>
+      match sstep ss (.reroot r root) with
+      | some ss' => (some ss', s!"ok {showReplica ss' r}")
       | none => (st, "bad-step")
     | _, _ => (st, "bad-op")
   | some ss, ["state"] =>
